@@ -15,10 +15,12 @@ import (
 	"fmt"
 	"math/rand"
 	"os"
+	"path"
 	"sort"
 	"strings"
 	"time"
 
+	"git.defalsify.org/vise.git/asm"
 	"git.defalsify.org/vise.git/cache"
 	"git.defalsify.org/vise.git/db"
 	memdb "git.defalsify.org/vise.git/db/mem"
@@ -912,6 +914,97 @@ func (cc corpusCase) build() (genOut, [][]byte) {
 	return genOut{app: a, cfg: &cfg, desc: desc}, in
 }
 
+// ---- the repository's example applications ------------------------------------------------
+
+func repoDir() string {
+	if d := os.Getenv("VERIF_REPO"); d != "" {
+		return d
+	}
+	return "/repo"
+}
+
+func disasm(code []byte) string {
+	b := bytes.NewBuffer(nil)
+	ph := vm.NewParseHandler().WithDefaultHandlers().WithWriter(b)
+	ph.ParseAll(code)
+	return b.String()
+}
+
+// exampleApps assembles every examples/<dir>/*.vis with the REAL assembler; templates, translations
+// and menu labels are the files next to them; every LOAD/RELOAD symbol gets a scripted function
+// (the examples' own Go functions are not run).
+func exampleApps() []genOut {
+	var res []genOut
+	base := path.Join(repoDir(), "examples")
+	dirs, _ := os.ReadDir(base)
+	for _, d := range dirs {
+		if !d.IsDir() {
+			continue
+		}
+		files, _ := os.ReadDir(path.Join(base, d.Name()))
+		a := &eApp{Fn: map[string][]eFres{}}
+		var desc, sels []string
+		ok := true
+		seenSym := map[string]bool{}
+		for _, f := range files {
+			n := f.Name()
+			if !strings.HasSuffix(n, ".vis") {
+				continue
+			}
+			src, err := os.ReadFile(path.Join(base, d.Name(), n))
+			if err != nil {
+				ok = false
+				break
+			}
+			w := bytes.NewBuffer(nil)
+			var perr error
+			panicked, _ := hx.Recover(func() { _, perr = asm.Parse(string(src), w) })
+			if panicked || perr != nil {
+				ok = false
+				break
+			}
+			node := strings.TrimSuffix(n, ".vis")
+			a.Code = append(a.Code, kv{node, w.String()})
+			listing := disasm(w.Bytes())
+			desc = append(desc, node+": "+strings.ReplaceAll(strings.TrimSpace(listing), "\n", "; "))
+			for _, l := range strings.Split(listing, "\n") {
+				fl := strings.Fields(l)
+				if len(fl) >= 2 && (fl[0] == "LOAD" || fl[0] == "RELOAD") && !seenSym[fl[1]] {
+					seenSym[fl[1]] = true
+					a.Funcs = append(a.Funcs, fl[1])
+					a.Fn[fl[1]] = []eFres{{Content: "v-" + fl[1]}, {Content: "w"}}
+				}
+				if len(fl) >= 3 && fl[0] == "INCMP" {
+					sels = append(sels, fl[2])
+				}
+			}
+		}
+		if !ok || len(a.Code) == 0 {
+			continue
+		}
+		for _, f := range files {
+			n := f.Name()
+			if strings.Contains(n, ".") || n == "Makefile" || f.IsDir() {
+				continue
+			}
+			b, err := os.ReadFile(path.Join(base, d.Name(), n))
+			if err != nil || bytes.Contains(b, []byte("{{")) && !bytes.Contains(b, []byte("{{.")) {
+				continue
+			}
+			if strings.Contains(n, "_menu") {
+				a.Menu = append(a.Menu, kv{n, strings.TrimRight(string(b), "\n")})
+			} else {
+				a.Tpl = append(a.Tpl, kv{n, string(b)})
+			}
+		}
+		if len(sels) == 0 {
+			sels = []string{"0", "1"}
+		}
+		res = append(res, genOut{app: a, cfg: &eCfg{FlagCount: 16, Out: 0}, sels: sels, desc: append([]string{"example " + d.Name()}, desc...)})
+	}
+	return res
+}
+
 // ---- driver ----------------------------------------------------------------------------
 
 func init() { drivers["engine"] = runEngine }
@@ -947,6 +1040,22 @@ func runEngine(o opts) error {
 			return err
 		}
 		w.Add(c)
+	}
+	for i, g := range exampleApps() {
+		for k := 0; k < 2; k++ {
+			r := hx.Rng(o.seed, "example", i*2+k)
+			cfg := *g.cfg
+			if k == 1 {
+				cfg.Out = uint32(pick(r, []int{80, 160, 200}))
+			}
+			gg := g
+			gg.cfg = &cfg
+			c, _, err := engineCase(i, "example", gg, genHistory(r, g.sels, 4+r.Intn(5)))
+			if err != nil {
+				return err
+			}
+			w.Add(c)
+		}
 	}
 	for i := 0; i < o.n; i++ {
 		r := hx.Rng(o.seed, "engine", i)
